@@ -162,6 +162,22 @@ def multigroup_family(tag):
     return scs
 
 
+def bulk_family(tag, quick):
+    """many chunks consumed within one ack flush interval (the flush interval is a minute), then Close: the final flush acknowledges all of
+    them before the close request, however many there are."""
+    scs = []
+    for n in ((600,) if quick else (300, 600, 1500)):
+        steps = [{"a": "connect", "must": True},
+                 {"a": "openDown", "obj": "D1", "qos": "reliable", "srcs": ["n1"], "ids": ["A"], "ackFlushMs": 60000, "must": True}]
+        for k in range(1, n + 1):
+            steps += [{"a": "sendChunk", "obj": "D1", "up": "XY"[k % 2], "upF": "info", "upAl": 0, "seq": k, "groups": [{"f": "id", "id": "AB"[k % 2], "al": 0, "pts": [[k, 4]]}]},
+                      {"a": "read", "g": "R1", "obj": "D1", "ctxMs": 1500, "wait": True}]
+        steps += [{"a": "closeDown", "g": "C", "obj": "D1", "ctxMs": 4000, "wait": True}, {"a": "quiesce"},
+                  {"a": "closeConn", "g": "main2", "wait": True, "ctxMs": 2000}, {"a": "quiesce", "ms": 50}]
+        scs.append({"id": "%s/bulk/%d" % (tag, n), "kind": "iscp", "conn": {"pingMs": [5000, 1000]}, "steps": steps})
+    return scs
+
+
 def dying_link_family(tag):
     """an acknowledgement is written into a link that is already broken for writing but not yet seen as closed: the transport reports a
     plain I/O error (or its "closed" sentinel). Whatever the error, the content of that acknowledgement must reach the broker later
@@ -247,7 +263,7 @@ def run(pid="C04", mon="MonC04"):
         scs += forms_family(pid, 3, "up", qos="unreliable", conn={"unreliable": True}, name="forms-up3-unreliable-path")
         scs += forms_family(pid, 3, "up", qos="partial", name="forms-up3-partial")
     if pid == "C04":
-        scs += backpressure_family(pid) + dying_link_family(pid)
+        scs += backpressure_family(pid) + dying_link_family(pid) + bulk_family(pid, quick)
         scs += family(ctx, pid, 25 if quick else 300, quick, bogus=False, faults=1, maxc=5, name="resume",
                       conn={"pingMs": [100, 100], "dialDelayMs": 40}, ack_flush_ms=250)
     trace = ctx.run_scenarios(scs, pid.lower(), par=8)
